@@ -233,6 +233,8 @@ spif_str_init_from_fp(spif_str_t self, FILE *fp)
     self->size = buff_inc;
     self->len = 0;
     self->s = (spif_charptr_t) MALLOC(self->size);
+    /* If the stream is already at its end, fgets() stores nothing. */
+    self->s[0] = 0;
 
     for (p = self->s; fgets((char *)p, buff_inc, fp); p = self->s + pos) {
         if (!(end = (spif_charptr_t)strchr((const char *)p, '\n'))) {
